@@ -324,6 +324,8 @@ def minimise(chk, case, sig, budget=250, deadline_s=120.0):
                 continue
             except HarnessError:
                 continue
+            except Exception:
+                continue  # a shrunk case the oracle cannot handle is simply not a candidate
             if any(v.sig == sig for v in viols):
                 cur = cand
                 improved = True
